@@ -407,6 +407,28 @@ def r2_selection(run):
                       runtime_witness='raise Leaf once (resolved via an ancestor handler), then add_error_handler(Mid, h), raise Leaf again: h is not used')
     if n_writers < 2:
         raise AnchorError('writers of _error_handlers not found (%d)' % n_writers)
+    # the lookup itself keeps no state at all: remembering, per raised type,
+    # which class (or handler) matched makes the answer depend on the history of
+    # raises, so a handler registered later for a nearer class is never chosen
+    for app, _q, tag in APPS:
+        lf = effective_method(p, app, '_find_error_handler')
+        stores = []
+        for n in walk_no_nested(lf.node):
+            if isinstance(n, (ast.Assign, ast.AugAssign, ast.AnnAssign)):
+                tg = n.targets if isinstance(n, ast.Assign) else [n.target]
+                for t in tg:
+                    for x in ast.walk(t):
+                        if isinstance(x, ast.Attribute) and isinstance(x.value, ast.Name) and x.value.id == 'self' and not isinstance(x.ctx, ast.Load):
+                            stores.append(n)
+                        if isinstance(x, ast.Subscript) and isinstance(x.value, ast.Attribute) and isinstance(x.value.value, ast.Name) \
+                                and x.value.value.id == 'self' and not isinstance(x.ctx, ast.Load):
+                            stores.append(n)
+            elif isinstance(n, ast.Call) and isinstance(n.func, ast.Attribute) and n.func.attr in MUT + ('append', 'add', 'setdefault') \
+                    and isinstance(n.func.value, ast.Attribute) and isinstance(n.func.value.value, ast.Name) and n.func.value.value.id == 'self':
+                stores.append(n)
+        run.check(not stores, '%s: the handler lookup stores nothing on the app (selection depends only on the registry and the exception type)' % tag,
+                  lf, stores[0] if stores else '_find_error_handler: no self stores', where=lf.loc(stores[0] if stores else None),
+                  runtime_witness='raise Leaf (remembered as matched by Exception), add_error_handler(Mid, h), raise Leaf: h is not used')
     seen = {}
     for app, _q, tag in APPS:
         f = effective_method(p, app, '_find_error_handler')
